@@ -180,6 +180,20 @@ def eval_case(case):
                 w += float(fr(o['res'])) * RESIDUAL_UNIT
             if abs(g - w) > 1e-9 * max(1.0, abs(w)):
                 devs.append((f'value:{k}:{c["ph"]}:{"node" if node and (m2 in (0, 2, 4, 100, 101) or c["ph"] == "descent") else "between"}', f'{where}: {k} = {g!r}; specification: {w!r}'))
+        # the values depend on altitude and mass, not on the number TYPE that carries them (round 17): whole metres and
+        # whole kilograms handed over as integers give what the same numbers give as floats
+        if not isinstance(mass, str) and float(mass) == int(mass):
+            alt_i = int(fl * FL_TO_METERS) + (1 if h < 2 * n - 2 else 0)
+            ityp = [int, np.int64][(alt_i + h) % 2]
+            res = []
+            for a_, m_ in ((ityp(alt_i), ityp(int(mass))), (float(alt_i), float(mass))):
+                try:
+                    q = pm.evaluate(AircraftState(altitude=a_, aircraft_mass=m_, true_airspeed=200.0, rate_of_climb=0.0), rule)
+                    res.append((q.true_airspeed, q.rate_of_climb, q.fuel_flow))
+                except Exception as e:
+                    res.append(type(e).__name__)
+            if (isinstance(res[0], str) or isinstance(res[1], str)) and res[0] != res[1] or not isinstance(res[0], str) and not np.allclose(res[0], res[1], rtol=1e-12, atol=0):
+                devs.append(('value:number-type', f'{c["ph"]} at {alt_i} m, mass {int(mass)} kg of table FL {c["fls"]}: (tas, rocd, ff) = {res[0]} for {ityp.__name__} numbers, {res[1]} for the same numbers as float'))
         return devs
     except Exception as e:
         import traceback
